@@ -93,17 +93,23 @@ def register (r : Register) (node worker : String) : Register :=
   | (k', c) :: rest =>
     if k' == (node, worker) then (k', c + 1) :: rest else (k', c) :: register rest node worker
 
-def sumCounts (l : List ((String × String) × Nat)) : Nat := (l.map (·.2)).foldl (· + ·) 0
+def sumCounts (l : List ((String × String) × Nat)) : Nat := (l.map (·.2)).sum
 
 /-- `get_counters(node, worker)` with both, one or no argument -/
+def keyMatches (node worker : Option String) (k : String × String) : Bool :=
+  (match node with | some n => k.1 == n | none => true) &&
+  (match worker with | some w => k.2 == w | none => true)
+
 def getCounters (r : Register) (node worker : Option String) : Nat :=
-  sumCounts (r.filter (fun e =>
-    (match node with | some n => e.1.1 == n | none => true) &&
-    (match worker with | some w => e.1.2 == w | none => true)))
+  sumCounts (r.filter (fun e => keyMatches node worker e.1))
 
 /-- `get_workers(node)` (a set in Python: deduplicated here, order not modelled) -/
+def dedup : List String → List String
+  | [] => []
+  | a :: l => if l.contains a then dedup l else a :: dedup l
+
 def getWorkers (r : Register) (node : Option String) : List String :=
-  ((r.filter (fun e => match node with | some n => e.1.1 == n | none => true)).map (·.1.2)).eraseDups
+  dedup ((r.filter (fun e => match node with | some n => e.1.1 == n | none => true)).map (·.1.2))
 
 /-! ## Bridging: which register object a node reads and writes
 
@@ -116,23 +122,22 @@ structure Bridging where
   bridged : List (Nat × Nat)        -- `b in a._bridged_nodes`
 deriving Repr
 
-def Bridging.reg (b : Bridging) (n : Nat) : Nat :=
-  match b.regOf.find? (·.1 == n) with
-  | some (_, r) => r
-  | none => n
+def lookupReg : List (Nat × Nat) → Nat → Nat
+  | [], n => n
+  | (k, r) :: rest, n => if k == n then r else lookupReg rest n
 
-def Bridging.isBridged (b : Bridging) (x y : Nat) : Bool := b.bridged.any (· == (x, y))
+def Bridging.reg (b : Bridging) (n : Nat) : Nat := lookupReg b.regOf n
+
+def Bridging.isBridged (b : Bridging) (x y : Nat) : Bool := b.bridged.contains (x, y)
 
 def Bridging.setReg (b : Bridging) (n r : Nat) : Bridging :=
-  { b with regOf := (n, r) :: b.regOf.filter (·.1 != n) }
+  { b with regOf := (n, r) :: b.regOf }
 
-/-- `a.bridge_with_node(c)` : returns `none` for the `ValueError` branch (bridging with itself
-is not an error in the code: `a.bridge_with_node(a)` is the `if test_node == self: return`… the
-real code is mirrored by the harness; see correspondence) -/
+/-- `a.bridge_with_node(c)` for equivalent nodes (the `ValueError` for non-equivalent nodes is checked
+by the harness directly): no-op when `c is a` or when already bridged, otherwise both are recorded
+as bridged and `a` adopts the register objects of `c`. -/
 def Bridging.bridge (b : Bridging) (a c : Nat) : Bridging :=
-  if a == c ∨ b.isBridged a c then b
-  else
-    let b1 := { b with bridged := (a, c) :: (c, a) :: b.bridged }
-    b1.setReg a (b.reg c)
+  if a == c || b.isBridged a c then b
+  else { regOf := (a, b.reg c) :: b.regOf, bridged := (a, c) :: (c, a) :: b.bridged }
 
 end I2N.Index
